@@ -37,11 +37,18 @@ Fixpoint mk_obs (na nf : nat) (prev : list (list Z)) (raw : list (Z * Z * list s
   end.
 (* an operation of a history as the implementation ran it: a plain operation, or `namespace ns; new n()` run on VM v --
    the operation it stands for (GetOrLoadClass of the full name) depends on the world it is executed in *)
-Inductive xop := XO (o : op) | XNewShort (v : vmid) (ns n : name).
+Inductive xop := XO (o : op) | XNewShort (v : vmid) (ns n : name)
+  | XCallFn (v : vmid) (n : name).   (* code run on VM v calls the function named n: a pure lookup of (KF, n) on v *)
 Definition concrete (cp : cpath) (w : world) (x : xop) : op :=
-  match x with XO o => o | XNewShort v ns n => new_short cp w v ns n end.
+  match x with XO o => o | XNewShort v ns n => new_short cp w v ns n | XCallFn v _ => OReTemp 0 end.
+Definition xstep (cp : cpath) (w : world) (x : xop) : world * result :=
+  match x with
+  | XCallFn v n => (w, if vm_alive w v then match lookup w v KF n with [] => RNone | l => RFound l end else RSkip)
+  | _ => step cp w (concrete cp w x)
+  end.
 Definition xscope (x : xop) : option nat :=
-  match x with XO o => op_scope o | XNewShort (Temp t) _ _ => Some t | XNewShort Base _ _ => None end.
+  match x with XO o => op_scope o | XNewShort (Temp t) _ _ => Some t | XNewShort Base _ _ => None
+          | XCallFn (Temp t) _ => Some t | XCallFn Base _ => None end.
 Definition xscoped_to (t : nat) (x : xop) : bool := match xscope x with Some u => Nat.eqb u t | None => false end.
 
 Record case := {
@@ -97,7 +104,7 @@ Fixpoint tie (c : case) (w : world) (ops : list xop) (obs : list ostep) : bool *
   match ops, obs with
   | [], [] => (true, true)
   | x :: ops', ob :: obs' =>
-      let (w', r) := step (cp_of (c_cp c)) w (concrete (cp_of (c_cp c)) w x) in
+      let (w', r) := xstep (cp_of (c_cp c)) w x in
       let (a, b) := tie c w' ops' obs' in
       (res_ok r ob && a, look_ok c w' ob && b)
   | _, _ => (false, false)
